@@ -101,6 +101,7 @@ type RunRec struct {
 	EnterSeq  int
 	ExitSeq   int // 0 while open
 	Refused   bool
+	Notified  bool // the start of the task has been reported to prunner
 	Released  bool
 	Outcome   Outcome
 	ByCancel  bool
@@ -117,6 +118,7 @@ type SimRunner struct {
 	Pipeline string
 	Env      map[string]string
 	Idx      int
+	NTasks   int
 
 	onTaskChange func(t *task.Task)
 
@@ -208,6 +210,9 @@ func (r *SimRunner) Run(t *task.Task) error {
 
 	t.Start = time.Now()
 	r.notify(t)
+	w.mu.Lock()
+	rec.Notified = true
+	w.mu.Unlock()
 
 	var out Outcome
 	byCancel := false
@@ -322,6 +327,7 @@ type JobRec struct {
 	ShutdownSeq     int                    // event seq of the shutdown stimulus if the job was waiting then
 	CancelPermitted bool                   // Cancel() may (but need not) reach the runner, e.g. forced shutdown
 	ForcedSeq       int                    // event seq of a forced shutdown that found the job running
+	MaybePurged     bool                   // its pipeline was undefined at some point after the accept: any save may purge the job, nothing is promised
 	FailFast        bool                   // a task failed while fail-fast was in force
 	FailSeq         int                    // event seq of the first non-allowed task failure delivered
 	FailedTasks     map[string]bool        // tasks for which the harness delivered a non-allowed failure
@@ -359,6 +365,7 @@ type World struct {
 	ctx    context.Context
 	cancel context.CancelFunc
 	Store  store.DataStore
+	Mem    *MemStore
 	Out    taskctl.OutputStore
 
 	mu             sync.Mutex
@@ -410,6 +417,9 @@ func NewWorld(cfg *Cfg, defs *definition.PipelinesDef, st store.DataStore, out t
 		Out:     out,
 		Stats:   &CaseStats{Classes: map[string]int{}},
 	}
+	if ms, ok := st.(*MemStore); ok && ms.release != nil {
+		w.Mem = ms
+	}
 	w.ctx, w.cancel = context.WithCancel(context.Background())
 	pr, err := prunner.NewPipelineRunner(w.ctx, defs, w.createTaskRunner, st, out)
 	if err != nil {
@@ -425,7 +435,7 @@ func NewWorld(cfg *Cfg, defs *definition.PipelinesDef, st store.DataStore, out t
 func (w *World) createTaskRunner(j *prunner.PipelineJob) taskctl.Runner {
 	w.mu.Lock()
 	defer w.mu.Unlock()
-	r := &SimRunner{w: w, JobID: j.ID, Pipeline: j.Pipeline, Env: j.Env, cancelCh: make(chan struct{})}
+	r := &SimRunner{w: w, JobID: j.ID, Pipeline: j.Pipeline, Env: j.Env, NTasks: len(j.Tasks), cancelCh: make(chan struct{})}
 	r.holdCond = sync.NewCond(&w.mu)
 	rec := w.Jobs[j.ID]
 	if rec == nil {
